@@ -1,11 +1,49 @@
 /- `jrsmodel` : JSON-lines in, JSON-lines out.  {"op": "...", ...} -> answer of the Lean model
    (and of the reference spec) for that operation.  Imports only Model/Spec/Drv files. -/
+import JrsVerif.Drv.C01
+import JrsVerif.Drv.C02
+import JrsVerif.Drv.C03
+import JrsVerif.Drv.C04
+import JrsVerif.Drv.C05
+import JrsVerif.Drv.C06
+import JrsVerif.Drv.C07
 import JrsVerif.Drv.C08
+import JrsVerif.Drv.C09
+import JrsVerif.Drv.C10
+import JrsVerif.Drv.C11
+import JrsVerif.Drv.C12
+import JrsVerif.Drv.C13
+import JrsVerif.Drv.C14
+import JrsVerif.Drv.C15
+import JrsVerif.Drv.C16
+import JrsVerif.Drv.C17
+import JrsVerif.Drv.C18
+import JrsVerif.Drv.C19
+import JrsVerif.Drv.C20
 
 open Lean
 
 def handlers : List (String → Json → Option Json) := [
-  JrsVerif.Drv.C08.handle
+  JrsVerif.Drv.C01.handle,
+  JrsVerif.Drv.C02.handle,
+  JrsVerif.Drv.C03.handle,
+  JrsVerif.Drv.C04.handle,
+  JrsVerif.Drv.C05.handle,
+  JrsVerif.Drv.C06.handle,
+  JrsVerif.Drv.C07.handle,
+  JrsVerif.Drv.C08.handle,
+  JrsVerif.Drv.C09.handle,
+  JrsVerif.Drv.C10.handle,
+  JrsVerif.Drv.C11.handle,
+  JrsVerif.Drv.C12.handle,
+  JrsVerif.Drv.C13.handle,
+  JrsVerif.Drv.C14.handle,
+  JrsVerif.Drv.C15.handle,
+  JrsVerif.Drv.C16.handle,
+  JrsVerif.Drv.C17.handle,
+  JrsVerif.Drv.C18.handle,
+  JrsVerif.Drv.C19.handle,
+  JrsVerif.Drv.C20.handle
 ]
 
 def dispatch (line : String) : Json :=
